@@ -70,6 +70,7 @@ func HarnessBuild() {
 	wFaults = verif.Param("faults", 0) == 1
 	wLeafPkgs = verif.Param("leaf", 0) == 1
 	wKindMask = verif.Param("kinds", 0)
+	wSharedFinders = verif.Param("shared", 0) == 1
 	failed := false
 	b, err := NewBuilder(wTarget, wFetcher{}, wRegistry{})
 	verif.Assume(err == nil)
@@ -80,7 +81,7 @@ func HarnessBuild() {
 		n := wNode{verif.Choose("add.pkg", nPkg), verif.Choose("add.loc", 2)}
 		k := wFinderKey{n, verif.Choose("add.finder", wNFinders)}
 		adds = append(adds, k)
-		diags := b.AddRemoteSource(ctx, wSource(n), wFinder{k.node, k.kind})
+		diags := b.AddRemoteSource(ctx, wSource(n), wMkFinder(k.node, k.kind))
 		if wFaults {
 			if diags.HasErrors() {
 				failed = true
